@@ -1,55 +1,88 @@
 package interp
 
-// Placeholder regexp model: concrete strings are handled by the host
-// regexp; symbolic input is unsupported until the Prog interpreter is in.
+// gosym regexp model.  regexp.MustCompile compiles the *actual pattern
+// string the target program passes* with the host regexp/syntax;
+// ReplaceAll / ReplaceAllString run a leftmost-first backtracking
+// matcher over that syntax.Prog (the semantics of Go's non-POSIX
+// regexp), wrapped in a transcription of regexp.(*Regexp).replaceAll.
+// Rune tests on symbolic input fork through the path manager.  The Go
+// regexp *engine* is modelled (trusted, diffed against the host engine
+// at setup); the pattern and its call sites are the real ones.
 
 import (
+	"go/token"
+	"go/types"
 	"regexp"
+	"regexp/syntax"
+	"strings"
 )
 
 type reHandle struct {
-	re  *regexp.Regexp
-	src string
+	re   *regexp.Regexp
+	src  string
+	prog *syntax.Prog
 }
 
 func resetRegexpModel() {}
 
+func compileModel(src string) *reHandle {
+	h := &reHandle{re: regexp.MustCompile(src), src: src}
+	rx, err := syntax.Parse(src, syntax.Perl)
+	if err == nil {
+		rx = rx.Simplify()
+		if p, err := syntax.Compile(rx); err == nil {
+			h.prog = p
+		}
+	}
+	return h
+}
+
 func init() {
 	externals["regexp.MustCompile"] = func(fr *frame, args []value) value {
-		src := args[0].(string)
-		v := value(&reHandle{regexp.MustCompile(src), src})
+		src, ok := args[0].(string)
+		if !ok {
+			unsup("regexp.MustCompile of a symbolic pattern")
+		}
+		v := value(compileModel(src))
 		return &v
 	}
 	externals["(*regexp.Regexp).ReplaceAllString"] = func(fr *frame, args []value) value {
 		h := (*args[0].(*value)).(*reHandle)
 		s, ok1 := args[1].(string)
 		r, ok2 := args[2].(string)
-		if !ok1 || !ok2 {
-			return reReplaceSym(fr, h, toSymstr(args[1]), toSymstr(args[2]))
+		if ok1 && ok2 && !ForceRegexpModel {
+			return h.re.ReplaceAllString(s, r)
 		}
-		return h.re.ReplaceAllString(s, r)
+		out := reReplaceAll(fr, h, []value(toSymstr(args[1])), []value(toSymstr(args[2])))
+		return normStr(symstr(out))
 	}
 	externals["(*regexp.Regexp).ReplaceAll"] = func(fr *frame, args []value) value {
 		h := (*args[0].(*value)).(*reHandle)
-		src := args[1].([]value)
-		repl := args[2].([]value)
+		src, _ := args[1].([]value)
+		repl, _ := args[2].([]value)
 		sb, ok1 := concBytes(src)
 		rb, ok2 := concBytes(repl)
-		if !ok1 || !ok2 {
-			out := reReplaceSym(fr, h, symstr(src), symstr(repl))
-			return []value(toSymstr(out))
+		if ok1 && ok2 && !ForceRegexpModel {
+			out := h.re.ReplaceAll(sb, rb)
+			if out == nil {
+				return []value(nil)
+			}
+			res := make([]value, len(out))
+			for i, c := range out {
+				res[i] = c
+			}
+			return res
 		}
-		out := h.re.ReplaceAll(sb, rb)
-		if out == nil {
-			return []value(nil)
-		}
-		res := make([]value, len(out))
-		for i, c := range out {
-			res[i] = c
-		}
-		return res
+		return reReplaceAll(fr, h, src, repl)
+	}
+	externals["(*regexp.Regexp).String"] = func(fr *frame, args []value) value {
+		return (*args[0].(*value)).(*reHandle).src
 	}
 }
+
+// ForceRegexpModel makes concrete inputs go through the model too (used
+// by the selftest that diffs the model against the host engine).
+var ForceRegexpModel = false
 
 func concBytes(v []value) ([]byte, bool) {
 	b := make([]byte, len(v))
@@ -63,7 +96,160 @@ func concBytes(v []value) ([]byte, bool) {
 	return b, true
 }
 
-func reReplaceSym(fr *frame, h *reHandle, src, repl symstr) value {
-	unsup("regexp on symbolic input not modelled yet")
-	return nil
+type runeAt struct {
+	r     value // int32 or symv(int32)
+	pos   int
+	width int
+}
+
+// decodeChain decodes src from byte 0 with the real utf8.DecodeRune.
+func decodeChain(src []value) []runeAt {
+	fn := curInterp.prog.ImportedPackage("unicode/utf8").Func("DecodeRune")
+	var out []runeAt
+	for i := 0; i < len(src); {
+		t := call(curInterp, nil, token.NoPos, fn, []value{src[i:]}).(tuple)
+		w := t[1].(int)
+		out = append(out, runeAt{t[0], i, w})
+		i += w
+	}
+	return out
+}
+
+type reMatcher struct {
+	prog    *syntax.Prog
+	runes   []runeAt
+	visited map[[2]int]bool
+}
+
+func runeIn(r value, ranges []rune, foldCase bool) bool {
+	if foldCase {
+		unsup("regexp model: case folding")
+	}
+	rt, _ := curTT.lift(r)
+	cond := curTT.boolc(false)
+	if len(ranges) == 1 {
+		cond = curTT.cmp("=", rt, curTT.konst(32, uint64(uint32(ranges[0]))))
+	} else {
+		for k := 0; k+1 < len(ranges); k += 2 {
+			lo := curTT.konst(32, uint64(uint32(ranges[k])))
+			hi := curTT.konst(32, uint64(uint32(ranges[k+1])))
+			in := curTT.and(curTT.cmp("bvsle", lo, rt), curTT.cmp("bvsle", rt, hi))
+			cond = curTT.or(cond, in)
+		}
+	}
+	return curPC.branch(cond)
+}
+
+// run returns the rune index at which the match ends, or -1.
+func (m *reMatcher) run(pc uint32, i int) int {
+	for {
+		key := [2]int{int(pc), i}
+		if m.visited[key] {
+			return -1
+		}
+		m.visited[key] = true
+		inst := &m.prog.Inst[pc]
+		switch inst.Op {
+		case syntax.InstFail:
+			return -1
+		case syntax.InstMatch:
+			return i
+		case syntax.InstNop, syntax.InstCapture:
+			pc = inst.Out
+		case syntax.InstAlt:
+			if e := m.run(inst.Out, i); e >= 0 {
+				return e
+			}
+			pc = inst.Arg
+		case syntax.InstAltMatch:
+			unsup("regexp model: InstAltMatch")
+		case syntax.InstEmptyWidth:
+			unsup("regexp model: empty-width assertion")
+		case syntax.InstRune, syntax.InstRune1:
+			if i >= len(m.runes) {
+				return -1
+			}
+			if !runeIn(m.runes[i].r, inst.Rune, syntax.Flags(inst.Arg)&syntax.FoldCase != 0) {
+				return -1
+			}
+			pc = inst.Out
+			i++
+		case syntax.InstRuneAny:
+			if i >= len(m.runes) {
+				return -1
+			}
+			pc = inst.Out
+			i++
+		case syntax.InstRuneAnyNotNL:
+			if i >= len(m.runes) {
+				return -1
+			}
+			rt, _ := curTT.lift(m.runes[i].r)
+			if curPC.branch(curTT.cmp("=", rt, curTT.konst(32, '\n'))) {
+				return -1
+			}
+			pc = inst.Out
+			i++
+		default:
+			unsup("regexp model: instruction %v", inst.Op)
+		}
+	}
+}
+
+// reReplaceAll transcribes regexp.(*Regexp).replaceAll for a literal
+// replacement.
+func reReplaceAll(fr *frame, h *reHandle, src, repl []value) []value {
+	if h.prog == nil {
+		unsup("regexp model: pattern not compilable by regexp/syntax")
+	}
+	for _, c := range repl {
+		if b, ok := c.(byte); ok && b == '$' {
+			unsup("regexp model: $ in replacement")
+		}
+		if _, ok := c.(symv); ok {
+			unsup("regexp model: symbolic replacement")
+		}
+	}
+	if strings.HasPrefix(h.src, "^") {
+		unsup("regexp model: anchored pattern")
+	}
+	runes := decodeChain(src)
+	// byte position -> rune index
+	posOf := func(ri int) int {
+		if ri >= len(runes) {
+			return len(src)
+		}
+		return runes[ri].pos
+	}
+	lastMatchEnd := 0 // rune index
+	search := 0       // rune index
+	var buf []value
+	for search <= len(runes) {
+		// leftmost match starting at or after search
+		ms, me := -1, -1
+		for s := search; s <= len(runes); s++ {
+			m := &reMatcher{prog: h.prog, runes: runes, visited: map[[2]int]bool{}}
+			if e := m.run(uint32(h.prog.Start), s); e >= 0 {
+				ms, me = s, e
+				break
+			}
+		}
+		if ms < 0 {
+			break
+		}
+		buf = append(buf, src[posOf(lastMatchEnd):posOf(ms)]...)
+		if me > lastMatchEnd || ms == 0 {
+			buf = append(buf, repl...)
+		}
+		lastMatchEnd = me
+		// advance past this match; always at least one rune
+		if search+1 > me {
+			search++
+		} else {
+			search = me
+		}
+	}
+	buf = append(buf, src[posOf(lastMatchEnd):]...)
+	_ = types.Byte
+	return buf
 }
